@@ -18,4 +18,4 @@ else
 fi
 [ "$1" = "--" ] && shift
 id="$1"; tier="${2:-quick}"
-RV_REPO_SRC="$d/src" "$here/check" "$id" "$tier" --no-evidence 2>&1 | grep -E "^(VIOLATION|HELD|INCONCLUSIVE|KNOWN-FINDING|  [a-z_]+: )" | head -${MUT_LINES:-8}
+RV_REPO_SRC="$d/src" "$here/check" "$id" "$tier" --no-evidence 2>&1 | grep -E "^(VIOLATION|HELD|INCONCLUSIVE|KNOWN-FINDING|  [A-Za-z0-9_.]+: )" | head -${MUT_LINES:-8}
